@@ -343,6 +343,22 @@ class FakeNet:
             return pending
         if seg == "bytes":
             return 1
+        if seg == "aftercr":
+            # every piece ends right after a CR: each CR LF pair straddles two recv() results
+            for s in self.socks:
+                if s.conn is not None and s.conn.out and s.state == "connected" and s.conn.pending() == pending:
+                    data = b"".join(bytes(c[0]) for c in s.conn.out)
+                    i = data.find(b"\r")
+                    return i + 1 if i >= 0 else pending
+            return pending
+        if seg == "beforelf":
+            # every piece ends right before an LF: the CR of each CR LF ends a piece together with what precedes it
+            for s in self.socks:
+                if s.conn is not None and s.conn.out and s.state == "connected" and s.conn.pending() == pending:
+                    data = b"".join(bytes(c[0]) for c in s.conn.out)
+                    i = data.find(b"\n", 1)
+                    return i if i > 0 else pending
+            return pending
         if seg == "units":
             # one command's reply per recv(): the granularity of the as-coded model
             for s in self.socks:
